@@ -46,6 +46,7 @@ import (
 	"fmt"
 	"io"
 	"log/slog"
+	"net"
 	"net/http"
 	"net/http/httptest"
 	"net/url"
@@ -71,6 +72,12 @@ type Case struct {
 	Marker  bool   // backend sets templ-skip-modify: true
 	Chunked bool   // backend sends no Content-Length (chunked transfer)
 	Status  int    // backend status
+	// Late > 0: the backend comes up late - the proxy's first Late connection
+	// attempts fail: a listener accepts and immediately closes exactly Late
+	// connections, then serves (deterministic, counted; the proxy retries
+	// after 100 ms, x1.5 per attempt, 20 tries).
+	Late     int    `json:",omitempty"`
+	LateMode string `json:",omitempty"`
 }
 
 var contentTypes = []string{"text/html", "text/html; charset=utf-8", "application/json", "text/plain", "text/css", "image/png", "application/xhtml+xml"}
@@ -159,7 +166,19 @@ func (h countingHandler) WithGroup(string) slog.Handler      { return h }
 
 func newEnv() *env {
 	e := &env{docs: map[string][]byte{}}
-	e.backend = httptest.NewServer(http.HandlerFunc(func(w http.ResponseWriter, r *http.Request) {
+	e.backend = httptest.NewServer(e.backendHandler(nil))
+	u, _ := url.Parse(e.backend.URL)
+	e.front = httptest.NewServer(proxy.New(slog.New(countingHandler{e}), "127.0.0.1", 0, u))
+	e.client = &http.Client{Transport: &http.Transport{DisableCompression: true, MaxIdleConnsPerHost: 64}}
+	return e
+}
+
+// backendHandler serves exactly the stored bytes and headers of a case.
+func (e *env) backendHandler(hits *atomic.Int64) http.Handler {
+	return http.HandlerFunc(func(w http.ResponseWriter, r *http.Request) {
+		if hits != nil {
+			hits.Add(1)
+		}
 		v, ok := e.store.Load(strings.TrimPrefix(r.URL.Path, "/d/"))
 		if !ok {
 			http.Error(w, "verif: unknown case", http.StatusTeapot)
@@ -185,11 +204,69 @@ func newEnv() *env {
 			w.(http.Flusher).Flush()
 		}
 		_, _ = w.Write(s.body)
-	}))
-	u, _ := url.Parse(e.backend.URL)
-	e.front = httptest.NewServer(proxy.New(slog.New(countingHandler{e}), "127.0.0.1", 0, u))
-	e.client = &http.Client{Transport: &http.Transport{DisableCompression: true, MaxIdleConnsPerHost: 64}}
-	return e
+	})
+}
+
+// gateListener accepts and immediately closes its first `reject` connections
+// (each one is a failed round trip for the proxy), then behaves normally.
+type gateListener struct {
+	net.Listener
+	reject   int
+	rejected atomic.Int64
+}
+
+func (g *gateListener) Accept() (net.Conn, error) {
+	for {
+		c, err := g.Listener.Accept()
+		if err != nil {
+			return nil, err
+		}
+		if int(g.rejected.Load()) < g.reject {
+			g.rejected.Add(1)
+			_ = c.Close()
+			continue
+		}
+		return c, nil
+	}
+}
+
+// runLate: a fresh backend that comes up late behind a fresh proxy.
+func (e *env) runLate(cs Case, id string) verdict {
+	var hits atomic.Int64
+	srv := httptest.NewUnstartedServer(e.backendHandler(&hits))
+	ln, err := net.Listen("tcp", "127.0.0.1:0")
+	if err != nil {
+		return verdict{undecided, "cannot reserve a port: " + err.Error()}
+	}
+	addr := ln.Addr().String()
+	// Truly refused connections would need the port to stay free while nothing
+	// listens on it - a race with every other socket of this process (tried:
+	// foreign listeners answered, rebinding failed). The gate is deterministic.
+	gate := &gateListener{Listener: ln, reject: cs.Late}
+	srv.Listener = gate
+	srv.Start()
+	u, _ := url.Parse("http://" + addr)
+	front := httptest.NewServer(proxy.New(slog.New(countingHandler{e}), "127.0.0.1", 0, u))
+	defer front.Close()
+	got, ferr := e.fetch(front.URL, id, cs.HX)
+	defer srv.Close()
+	if hits.Load() == 0 {
+		return verdict{undecided, fmt.Sprintf("the proxy never reached the late backend (status %d, error %v)", got.Status, ferr)}
+	}
+	if int(gate.rejected.Load()) != cs.Late {
+		return verdict{undecided, fmt.Sprintf("%d connection attempts were refused, wanted %d", gate.rejected.Load(), cs.Late)}
+	}
+	if ferr != nil {
+		return verdict{What: "proxy-request-failed", Detail: ferr.Error()}
+	}
+	direct, err := e.fetch("http://"+addr, id, cs.HX)
+	if err != nil || direct.ReadErr != "" {
+		core.Infra("direct fetch from the late backend failed: %v %s", err, direct.ReadErr)
+	}
+	if isModifiedClass(cs) {
+		return judgeModified(direct, got)
+	}
+	return judgePassThrough(direct, got)
 }
 
 func (e *env) close() { e.front.Close(); e.backend.Close() }
@@ -270,9 +347,12 @@ func (e *env) fetch(base, id string, hx bool) (observation, error) {
 // ---------------------------------------------------------------- oracle
 
 type verdict struct {
-	What   string // canonical category, "" = held
+	What   string // canonical category, "" = held; undecided = the case could not be judged
 	Detail string
 }
+
+// undecided marks a case that could not be judged (late backend never contacted).
+const undecided = "undecided"
 
 const reloadSrc = "/_templ/reload/script.js"
 
@@ -472,6 +552,9 @@ func (e *env) runCase(cs Case) verdict {
 	id := strconv.FormatInt(e.next.Add(1), 10)
 	e.store.Store(id, &served{cs: cs, body: e.encoded(cs.Doc, cs.Enc)})
 	defer e.store.Delete(id)
+	if cs.Late > 0 {
+		return e.runLate(cs, id)
+	}
 	direct, err := e.fetch(e.backend.URL, id, cs.HX)
 	if err != nil || direct.ReadErr != "" {
 		core.Infra("direct fetch from the backend failed: %v %s", err, direct.ReadErr)
@@ -493,8 +576,12 @@ func key(cs Case, what string) string {
 	if isModifiedClass(cs) {
 		class = "modified"
 	}
-	return fmt.Sprintf("%s: class=%s doc=%s enc=%q ct=%q csp=%s hx=%v marker=%v chunked=%v status=%d",
+	k := fmt.Sprintf("%s: class=%s doc=%s enc=%q ct=%q csp=%s hx=%v marker=%v chunked=%v status=%d",
 		what, class, cs.Doc.label(), cs.Enc, cs.CT, cs.CSP, cs.HX, cs.Marker, cs.Chunked, cs.Status)
+	if cs.Late > 0 {
+		k += fmt.Sprintf(" backend-up-after-%d-failed-attempts(%s)", cs.Late, cs.LateMode)
+	}
+	return k
 }
 
 // reduce moves each dimension to its canonical representative while the same
@@ -509,6 +596,10 @@ func (e *env) reduce(cs Case, what string) Case {
 			return true
 		}
 		return false
+	}
+	try(func(t *Case) { t.Late, t.LateMode = 0, "" })
+	if cs.Late > 0 {
+		try(func(t *Case) { t.Late, t.LateMode = 1, "reset" })
 	}
 	try(func(t *Case) { t.Status = 200 })
 	try(func(t *Case) { t.Chunked = false })
@@ -628,7 +719,7 @@ func (k *counters) note(cs Case, n int) {
 
 // Run is the C20 check.
 func Run(c *core.Ctx) {
-	c.Rule = "case = document (29 fixed well-formed documents in varied spellings incl. CRLF, Latin-1 bytes and a UTF-8 BOM, a frameset document, seeded generated documents, 64 KB and 1 MB documents; 4 MB in thorough) x backend Content-Encoding {none,gzip,br,zstd,deflate,compress,'gzip, br'} x Content-Type (7) x CSP header shape (9) x request {plain, HX-Request} x backend skip marker x {Content-Length, chunked} x status {200,404,500}; every document meets every (encoding, content type) pair and, in the modified class, every CSP shape; the remaining dimensions are drawn per case from the seed; three canonical documents get the full cross product; non-trivial = case in the modified class (html, understood encoding, not skipped) - distinct by (document, configuration) hash"
+	c.Rule = "case = document (29 fixed well-formed documents in varied spellings incl. CRLF, Latin-1 bytes and a UTF-8 BOM, a frameset document, seeded generated documents, 64 KB and 1 MB documents; 4 MB in thorough) x backend Content-Encoding {none,gzip,br,zstd,deflate,compress,'gzip, br'} x Content-Type (7) x CSP header shape (9) x request {plain, HX-Request} x backend skip marker x {Content-Length, chunked} x status {200,404,500}; plus backend-comes-up-late cases (3 documents x 6 classes x {1, 2 or 3 first connection attempts reset}) behind a fresh proxy; every document meets every (encoding, content type) pair and, in the modified class, every CSP shape; the remaining dimensions are drawn per case from the seed; three canonical documents get the full cross product; non-trivial = case in the modified class (html, understood encoding, not skipped) - distinct by (document, configuration) hash"
 	c.Assume("golang.org/x/net/html is the reference HTML5 parser/serialiser for deciding that two byte strings are the same document (the proxy uses the same library, so a parser defect shared by both sides is invisible)")
 	c.Assume("the harness's zstd / deflate / compress bodies are valid streams of those formats (zstd: stored blocks); only their opacity to the proxy matters")
 	c.Assume("the client sends an explicit Accept-Encoding, so Go's transport performs no transparent decompression on either hop")
@@ -708,6 +799,27 @@ func Run(c *core.Ctx) {
 		}
 	}
 
+	// ---- backend comes up late (restart during a reload): every class once per
+	// document, first attempts failing by reset (counted) or refusal (timed)
+	nLate := 0
+	for _, doc := range []string{"fragment-div", "simple", "head-scripts"} {
+		for _, late := range []struct {
+			n    int
+			mode string
+		}{{1, "reset"}, {2, "reset"}, {3, "reset"}} {
+			base := Case{Doc: DocSpec{Name: doc}, CT: "text/html; charset=utf-8", CSP: "none", Status: 200, Late: late.n, LateMode: late.mode}
+			hx, mk, js, zs, pg, gz := base, base, base, base, base, base
+			hx.HX = true
+			mk.Marker = true
+			js.CT = "application/json"
+			zs.Enc = "zstd"
+			pg.CSP = "nonce-among-directives"
+			gz.Enc = "gzip"
+			cases = append(cases, hx, mk, js, zs, pg, gz)
+			nLate += 6
+		}
+	}
+
 	k := &counters{byEnc: map[string]int{}, byCT: map[string]int{}, byCSP: map[string]int{}, byReason: map[string]int{}}
 	type vio struct {
 		i  int
@@ -716,6 +828,7 @@ func Run(c *core.Ctx) {
 	}
 	var vioMu sync.Mutex
 	var vios []vio
+	var lateDecided atomic.Int64
 	work := make(chan int)
 	var wg sync.WaitGroup
 	for w := 0; w < 16; w++ {
@@ -725,6 +838,13 @@ func Run(c *core.Ctx) {
 			for i := range work {
 				cs := cases[i]
 				v := e.runCase(cs)
+				if v.What == undecided {
+					c.Inconclusive(key(cs, undecided) + ": " + v.Detail)
+					continue
+				}
+				if cs.Late > 0 {
+					lateDecided.Add(1)
+				}
 				c.Eval(1)
 				k.note(cs, len(e.docBytes(cs.Doc)))
 				if isModifiedClass(cs) {
@@ -789,6 +909,8 @@ func Run(c *core.Ctx) {
 			break
 		}
 	}
+	c.Set("late_backend_cases", nLate)
+	c.Set("late_backend_cases_decided", lateDecided.Load())
 	c.Set("documents", len(docs))
 	c.Set("cases_modified_class", k.modified.Load())
 	c.Set("cases_pass_through_class", k.passthrough.Load())
